@@ -487,6 +487,18 @@ func pointCase(k *run.K, n int) {
 func geomCase(k *run.K) {
 	domain := shared.PickDomain(k.Rng)
 	gg := &gen.G{R: k.Rng, Cfg: gen.NewCfg(k.Rng, domain)}
+	if domain == gen.DGP && k.Rng.Chance(1, 3) {
+		// projected-coordinate magnitudes: a few units of extent at an offset of 1e5..1e7 (the covering
+		// tolerance 1e-9*M is then still far below the extent)
+		off := []int{100000, 1350000, 13500000}[k.Rng.Intn(3)]
+		gg.Cfg.Side = 12
+		gg.Cfg.OffX, gg.Cfg.OffY = off+k.Rng.Range(-1000, 1000), off/3+k.Rng.Range(-1000, 1000)
+		if k.Rng.Bool() {
+			gg.Cfg.OffX = -gg.Cfg.OffX
+		}
+		domain = "D-gp-offset"
+		k.Count("offset_float_cases", 1)
+	}
 	g := gg.Rich(2)
 	k.In("domain", domain)
 	k.In("g", shared.WKT(g))
@@ -499,7 +511,7 @@ func geomCase(k *run.K) {
 		k.Nontrivial(string(g.AsBinary()))
 	}
 	judgeHull(k, controlPoints(g), h, "ConvexHull("+g.Type().String()+")")
-	if domain != gen.DGP {
+	if domain != gen.DGP && domain != "D-gp-offset" {
 		judgeRects(k, g, h)
 	}
 	// representation independence: reversed and force-oriented inputs give the same hull
@@ -507,14 +519,56 @@ func geomCase(k *run.K) {
 		var h2 geom.Geometry
 		if !k.Lib("nopanic", func() { h2 = v.ConvexHull() }) {
 			k.Check("hull-perm", vertexSet(h2) == vertexSet(h) && h2.IsCCW() == h.IsCCW(), "hull changes under %s of the input: %s vs %s", name, h2.AsText(), h.AsText())
-			if domain != gen.DGP && h2.IsPolygon() {
+			if domain != gen.DGP && domain != "D-gp-offset" && h2.IsPolygon() {
 				judgeRects(k, v, h2)
 			}
 		}
 	}
 }
 
+// offsetPointCase: float point sets a few units across with two-decimal detail at offsets of 1e5..1e7
+// (projected-coordinate magnitudes). The covering tolerance 1e-9*M stays two orders below the detail.
+func offsetPointCase(k *run.K, n int) {
+	r := k.Rng
+	offX := []float64{1e5, 1.35e6, 1.35e7, -1.35e7}[r.Intn(4)]
+	offY := offX/3 + float64(r.Range(-1000, 1000))
+	ext := []int{2, 3, 10, 50}[r.Intn(4)]
+	fs := make([]float64, 0, 2*n)
+	for i := 0; i < n; i++ {
+		fs = append(fs, offX+float64(r.Intn(ext*100+1))/100, offY+float64(r.Intn(ext*100+1))/100)
+	}
+	var g geom.Geometry
+	switch r.Intn(3) {
+	case 0:
+		g = geom.NewMultiPointXY(fs...).AsGeometry()
+	case 1:
+		g = geom.NewLineStringXY(fs...).AsGeometry()
+	default:
+		half := (n / 2) * 2
+		g = geom.NewMultiLineStringXY(fs[:half], fs[half:]).AsGeometry()
+	}
+	k.In("points", shared.WKT(g))
+	k.Nontrivial(string(g.AsBinary()))
+	var h geom.Geometry
+	if k.Lib("nopanic", func() { h = g.ConvexHull() }) {
+		return
+	}
+	k.Obs("hull", shared.WKT(h))
+	judgeHull(k, controlPoints(g), h, "ConvexHull(offset floats)")
+	// the hull of the hull covers the same points
+	var h2 geom.Geometry
+	if !k.Lib("nopanic", func() { h2 = h.ConvexHull() }) {
+		judgeHull(k, controlPoints(g), h2, "ConvexHull(ConvexHull(offset floats))")
+	}
+	k.Count("offset_float_cases", 1)
+}
+
 func runAll(c *run.Ctx) {
+	for _, n := range []int{3, 5, 7, 12, 30, 80} {
+		for i := 0; i < c.N(300, 4000); i++ {
+			c.Case(fmt.Sprintf("points-offset:%d", n), i, func(k *run.K) { offsetPointCase(k, n) })
+		}
+	}
 	sizes := []int{1, 2, 3, 4, 5, 6, 7, 8, 10, 13, 20, 50, 100, 200}
 	for _, n := range sizes {
 		reps := c.N(400, 4000)
